@@ -9,6 +9,7 @@ This module contains everything needed to model Submodels and define Events acco
 """
 
 import abc
+import datetime
 import uuid
 from typing import Optional, Set, Iterable, TYPE_CHECKING, List, Type, TypeVar, Generic, Union
 
@@ -1332,7 +1333,7 @@ class BasicEventElement(EventElement):
 
     @last_update.setter
     def last_update(self, last_update: Optional[datatypes.DateTime]) -> None:
-        if last_update is not None and last_update.tzname() != "UTC":
+        if last_update is not None and last_update.utcoffset() != datetime.timedelta(0):
             raise ValueError("last_update must be specified in UTC!")
         self._last_update: Optional[datatypes.DateTime] = last_update
 
